@@ -100,7 +100,7 @@ def _run_op(op, execs, outdir):
 
 
 PROBES = ["pt_same", "pt_new", "enum_same", "blocks_same", "cms_new", "mini_new", "truth_same", "truth_new", "again_same",
-          "newcoll_same", "fn_same"]
+          "newcoll_same", "fn_same", "rewrite_same", "rewrite_mini"]
 
 
 def _run_probe(probe, execs, outdir, fresh=False):
@@ -125,6 +125,14 @@ def _run_probe(probe, execs, outdir, fresh=False):
         # this probe always contains "this very object was translated before"; the reference (empty
         # history) is its first translation
         exe, backend, src = execs["same"], "atlas", _query("atlas", _MD["decl"] + _MD["block"])
+    elif probe in ("rewrite_same", "rewrite_mini"):
+        # ONE transformed tree written out twice (a retry, a second output directory): the history of this probe always
+        # contains "this very tree was written before"; the reference is its first package.  The query carries no
+        # metadata: blocks and scripts live in the executor between apply and write and are (legitimately) gone after
+        # the first write; what the tree itself carries (collection accesses, tokens) must come out again
+        backend = "atlas" if probe == "rewrite_same" else "cms_miniaod"
+        exe = execs["same"] if probe == "rewrite_same" else None
+        src = _query(backend, [], "j.pt() + e.%s(\"bk2\").Count()" % _COLL[backend][0])
     elif probe == "newcoll_same":
         # a collection no backend knows: refused in a fresh process, and after any history
         exe, backend, src = execs["same"], "atlas", _query("atlas", [], coll="VpLeakColl")
@@ -140,7 +148,8 @@ def _run_probe(probe, execs, outdir, fresh=False):
         raise common.MachineryError("unknown probe " + probe)
     if exe is None:
         exe = translate.executor_for(backend)
-    res = translate.translate_source(src, backend, outdir, exe=exe, twice=(probe == "again_same" and not fresh))
+    res = translate.translate_source(src, backend, outdir, exe=exe, twice=(probe == "again_same" and not fresh),
+                                     rewrite=(probe.startswith("rewrite_") and not fresh))
     text = []
     if res["outcome"] == "ok":
         for f in sorted(os.listdir(outdir)):
